@@ -118,7 +118,13 @@ char *evbuffer_readln(struct evbuffer *b, size_t *n_read_out, enum evbuffer_eol_
     out = malloc(len + 1);
     VP_ASSUME(out != NULL);
 #endif
-    memcpy(out, src, len + 1);
+    {
+        /* element-wise (not memcpy), so that the concrete bytes of a line layout stay concrete
+         * for CBMC's constant propagation */
+        size_t i;
+        for (i = 0; i <= len; i++)
+            out[i] = src[i];
+    }
     if (n_read_out)
         *n_read_out = len;
     return out;
